@@ -10,6 +10,10 @@ mod term;
 mod util;
 
 mod c01;
+mod c10;
+mod c12;
+mod c15;
+mod render;
 mod multi;
 mod multi_props;
 
@@ -56,6 +60,9 @@ fn checks() -> Vec<Check> {
         Check { id: "C02", run: mp::c02_run, meta: mp::c02_meta, replay: mp::c02_replay },
         Check { id: "C03", run: mp::c03_run, meta: mp::c03_meta, replay: mp::c03_replay },
         Check { id: "C04", run: mp::c04_run, meta: mp::c04_meta, replay: mp::c04_replay },
+        Check { id: "C10", run: c10::run, meta: c10::meta, replay: c10::replay },
+        Check { id: "C12", run: c12::run, meta: c12::meta, replay: c12::replay },
+        Check { id: "C15", run: c15::run, meta: c15::meta, replay: c15::replay },
         Check { id: "C19", run: mp::c19_run, meta: mp::c19_meta, replay: mp::c19_replay },
     ]
 }
